@@ -1166,7 +1166,7 @@ func (c *EvalCtx) call(e *ast.CallExpr) tv {
 			_, hn, _, hs := ex.mapRegions(c.st, mt)
 			hr := ex.getRegion(c.st, hn, hs)
 			return tv{p.And(p.Not(p.Eq(m, p.Int(0))), p.Select(p.Select(hr, m), c.asTerm(c.eval(e.Args[1])))), types.Typ[types.Bool]}
-		case "nsent", "sentAt":
+		case "nsent", "sentAt", "nrecv":
 			// the ghost log of a channel: nsent(ch) values have been sent on it so far, sentAt(ch, i) is the i-th of them
 			chv := c.eval(e.Args[0])
 			cht, ok := chv.t.Underlying().(*types.Chan)
@@ -1176,8 +1176,9 @@ func (c *EvalCtx) call(e *ast.CallExpr) tv {
 			el := cht.Elem()
 			base := "chan:" + shortTypeName(el)
 			ch := c.asTerm(chv)
-			if id.Name == "nsent" {
-				nr := ex.getRegion(c.st, base+".nsent", p.ArraySort(IntSort, IntSort))
+			if id.Name == "nsent" || id.Name == "nrecv" {
+				// (nrecv(ch): how many values this code has received from ch so far)
+				nr := ex.getRegion(c.st, base+"."+id.Name, p.ArraySort(IntSort, IntSort))
 				n := p.Select(nr, ch)
 				if c.wf != nil {
 					c.wf.facts = append(c.wf.facts, p.Ge(n, p.Int(0)))
@@ -1877,7 +1878,7 @@ func (ex *Exec) staticRegionsSig(c *FuncContract, m *Clause, names []string, pty
 			case "region":
 				s, _ := strconv.Unquote(e.Args[0].(*ast.BasicLit).Value)
 				if _, known := ex.regionSorts[s]; !known && strings.HasPrefix(s, "chan:") {
-					tn := strings.TrimSuffix(strings.TrimSuffix(strings.TrimPrefix(s, "chan:"), ".nsent"), ".sent")
+					tn := strings.TrimSuffix(strings.TrimSuffix(strings.TrimSuffix(strings.TrimPrefix(s, "chan:"), ".nsent"), ".nrecv"), ".sent")
 					if i := strings.Index(tn, "."); i >= 0 && c.PkgPath != "" && strings.HasSuffix(c.PkgPath, "/"+tn[:i]) {
 						tn = tn[i+1:]
 					}
